@@ -29,6 +29,9 @@ EXPLANATION = (
     'mark of every yielded fragment is decided by exhaustion of the byte counters (cumulative read == total), never '
     'by the size of a read, and nothing is yielded after a fragment marked last. Not decided: exact reassembly of '
     'arbitrary byte strings (a value property).')
+EXPLANATION_ADDED = ("(g) the fragment generator on every enumerated path: every read is counted (counters start at 0) before the next read or yield, every byte read is yielded once in its own field unless the read is known empty, exactly the first fragment is marked first and the mark is cleared after every yield, at least one fragment per frame, the generator ends only with both fields known exhausted, a fragment is marked last only when the field its mark does not test is known exhausted; (h) data_to_fragments_if_required yields the whole payload as one fragment without a size and passes on every fragment of a FrameFragmenter built from the same arguments with one; reassembly: a non-final fragment stores the builder's result under its stream id, a final one returns the builder's result and pops the entry, arriving content is appended field to field after the cached content.")
+EXPLANATION = EXPLANATION.replace(' Not decided', ' ' + EXPLANATION_ADDED + ' Not decided', 1) \
+    if ' Not decided' in EXPLANATION else EXPLANATION + ' ' + EXPLANATION_ADDED
 ASSUMPTIONS = COMMON_ASSUMPTIONS + ['io.BytesIO.read(n) returns at most n bytes, consecutively, and b"" only at the end']
 
 FRAG = 'rsocket.frame_fragmenter:FrameFragmenter'
